@@ -114,6 +114,7 @@ func (x *Exec) mapLookup(fr *Frame, st *State, i *ssa.Lookup, base Value) {
 		unsupported("lookup on %v", base.K)
 	}
 	mi := x.mapInfoOf(i.X.Type())
+	x.exactKey(fr, st, i.Index, i.Pos())
 	k := x.get(fr, st, i.Index)
 	has := x.vc.define(fmt.Sprintf("f%d.%s.ok", fr.id, i.Name()), x.mapHas(st, mi, base.X, k))
 	val := x.mapGet(st, mi, base.X, k)
@@ -149,6 +150,7 @@ func (x *Exec) mapUpdate(fr *Frame, st *State, i *ssa.MapUpdate) {
 	mv := x.get(fr, st, i.Map)
 	mi := x.mapInfoOf(i.Map.Type())
 	x.check(fr, st, "nil", Not(Eq(mv.X, nilRef)), i.Pos(), "assignment to entry in nil map")
+	x.exactKey(fr, st, i.Key, i.Pos())
 	x.mapStore(st, mi, mv.X, x.get(fr, st, i.Key), x.get(fr, st, i.Value))
 }
 
@@ -202,3 +204,30 @@ func (x *Exec) mapGetSpec(c *CEnv, mv, k Value) Value {
 
 func (x *Exec) rangeInit(fr *Frame, st *State, i *ssa.Range) { unsupported("range over map/string") }
 func (x *Exec) rangeNext(fr *Frame, st *State, i *ssa.Next)  { unsupported("range next") }
+
+// exactKey ("exactkeys" clause): a map key formed directly by a narrowing integer conversion must equal the
+// value it was converted from; otherwise distinct values share a key and the map no longer represents them.
+func (x *Exec) exactKey(fr *Frame, st *State, key ssa.Value, pos token.Pos) {
+	if fr.top.fc == nil || !fr.top.fc.ExactKeys {
+		return
+	}
+	cv, ok := key.(*ssa.Convert)
+	if !ok {
+		return
+	}
+	from, ok1 := intTyOf(cv.X.Type())
+	to, ok2 := intTyOf(cv.Type())
+	if !ok1 || !ok2 || to.W >= from.W && to.Signed == from.Signed {
+		return
+	}
+	src := x.get(fr, st, cv.X)
+	m := x.m()
+	var g *Term
+	if m == ModeInt {
+		g = m.inRange(src.X, to)
+	} else {
+		return
+	}
+	o := x.vc.oblige("keyconv", Implies(st.Reach, g), x.posOf(fr.fn, pos), fmt.Sprintf("map key %s(%s) preserves the value", cv.Type(), cv.X.Name()))
+	o.Clause = "exactkeys"
+}
